@@ -836,8 +836,10 @@ func (g *Graph) adjacentDefs(n *GNode) map[types.Object]ast.Expr {
 		if !ok {
 			break
 		}
+		// the definition dominates the test with nothing but other definitions in between, so the variable still
+		// holds this value at the test, whatever is assigned to it later
 		v, _ := g.Info.Defs[id].(*types.Var)
-		if v == nil || g.assignCount[v] != 1 {
+		if v == nil {
 			break
 		}
 		// a definition further back is only usable when the later ones cannot have changed what it read:
@@ -903,6 +905,15 @@ func substIdents(info *types.Info, e ast.Expr, defs map[types.Object]ast.Expr) a
 		x, y := substIdents(info, t.X, defs), substIdents(info, t.Y, defs)
 		if x != t.X || y != t.Y {
 			return &ast.BinaryExpr{X: x, OpPos: t.OpPos, Op: t.Op, Y: y}
+		}
+	case *ast.CallExpr:
+		// len(x), cap(x)
+		if id, ok := t.Fun.(*ast.Ident); ok && len(t.Args) == 1 {
+			if _, isB := info.Uses[id].(*types.Builtin); isB && (id.Name == "len" || id.Name == "cap") {
+				if x := substIdents(info, t.Args[0], defs); x != t.Args[0] {
+					return &ast.CallExpr{Fun: t.Fun, Lparen: t.Lparen, Args: []ast.Expr{x}, Rparen: t.Rparen}
+				}
+			}
 		}
 	}
 	return e
